@@ -1,17 +1,29 @@
 import Log4rsModel.Rolling.LemmasNoLoss
 import Log4rsModel.Rolling.LemmasWindow
-import Log4rsModel.Rolling.LemmasLock
+import Log4rsModel.Rolling.LemmasLockSmall
+import Log4rsModel.Roller.LemmasName
 /-
 C05 — Rolling appender never loses, duplicates, reorders or splits records.
-Model: `Rolling/Model.lean` (the appender state machine, any trigger as an abstract
-`Trigger σ`, any roller as a `RollFn`), `Roller/Model.lean` (shared delete / fixed-window models).
-The no-loss argument is parametric in the roller through `RollContract`, which is then proved for
-the delete roller and for the fixed-window model (any base, count, initial window with gaps,
-compression with `decode ∘ codec = id`, and every place where the fault oracle stops a rotation).
 
-Mutex: the sequential theorems describe one append at a time; `C05_schedule_serial_rolling` lifts
-them to concurrent writers under the assumption that the guard spans the whole append, as in the
-code. A narrowed guard is caught only by the harness's concurrent exploration with the amplifier.
+Model: `Rolling/Model.lean` (the appender state machine; any trigger as an abstract `Trigger σ`;
+any roller as a `RollFn`), `Roller/Model.lean` (shared delete / fixed-window models) and
+`fixedWindowRollC` (the compressing final step in its three sub-steps).
+
+The argument is parametric in the roller through `RollContractE`: every call of the roller
+discards at most ONE whole oldest archive, a successful call archives the log file, a call that
+reports `Err` left the log file alone or had already archived it. The contract is proved for the
+delete roller, for the fixed-window model (any base, count, initial window with gaps, compression
+with `decode ∘ codec = id`, every place where the fault oracle stops a rotation), for the real
+`{}` pattern substitution (name injectivity from C07), and for the "does its work, then reports
+Err" wrapper the harness uses. It is FALSE of the code as it is for one fault: the
+`remove_file(src)` sub-step of a compressing rotation (`C05_compress_failure_duplicates`).
+
+Histories (`List XOp`): appends of any record with any roller fault, appends whose encoder fails,
+restarts, clock ticks. Mutex: the sequential theorems describe one append at a time;
+`C05_concurrent_no_loss` lifts the main theorem to every schedule of the small-step lock machine
+(`Rolling/LockSmall.lean`), whose only assumption is mutual exclusion with the guard spanning the
+whole append as in the code. A guard narrowed in the code is outside these theorems; it is looked
+for by the harness's concurrent runs.
 -/
 namespace Log4rs.Rolling
 open Log4rs.Roller
@@ -22,44 +34,47 @@ variable {σ : Type}
 def retained (cfg : Cfg σ) (arch : Disk → List Bytes) (d : Disk) : List Bytes := arch d ++ [fileOf cfg d]
 
 /-- the invariant holds when the first appender is built on any disk -/
-theorem C05_inv_init (cfg : Cfg σ) (arch : Disk → List Bytes) (hc : RollContract cfg.roll cfg.path arch)
+theorem C05_inv_init (cfg : Cfg σ) (arch : Disk → List Bytes) (hc : RollContractE cfg.roll cfg.path arch)
     (d : Disk) (t0 : σ) (now : Nat) : Inv cfg arch (init cfg d t0 now) (Ghost.init cfg arch d) :=
   Inv.atInit cfg arch hc.frame d t0 now
 
 /-- every operation — append of any record with any trigger answer and any roller outcome
-(success, or failure at any step), restart, clock tick — preserves the invariant, in append and in
-truncate mode (since the `fix:` commit b8295bc a reopen after a failed roll no longer truncates:
-see `C05_truncate_reopen_after_failed_roll_keeps`). -/
-theorem C05_inv_step (cfg : Cfg σ) (arch : Disk → List Bytes) (hc : RollContract cfg.roll cfg.path arch)
-    (s : St σ) (g : Ghost) (inv : Inv cfg arch s g) (op : Op) :
-    Inv cfg arch (applyOp cfg s op).2 (ghostStep cfg g op (applyOp cfg s op).1) :=
-  inv.step hc op
+(success; failure at any step; failure reported after the work was done), append whose encoder
+fails, restart, clock tick — preserves the invariant, in append and in truncate mode -/
+theorem C05_inv_step (cfg : Cfg σ) (arch : Disk → List Bytes) (hc : RollContractE cfg.roll cfg.path arch)
+    (s : St σ) (g : Ghost) (inv : Inv cfg arch s g) (op : XOp) :
+    Inv cfg arch (applyX cfg s op).2 (ghostStepX cfg g op (applyX cfg s op).1 (goneAfter cfg (applyX cfg s op).2)) :=
+  inv.stepX hc op
 
 /-- restart in append mode keeps everything; in truncate mode it discards the active segment — at
 open, and only that: the archives are untouched and the file is empty -/
-theorem C05_restart (cfg : Cfg σ) (arch : Disk → List Bytes) (hc : RollContract cfg.roll cfg.path arch)
+theorem C05_restart (cfg : Cfg σ) (arch : Disk → List Bytes) (hc : RollContractE cfg.roll cfg.path arch)
     (s : St σ) (hwf : WF cfg s) :
     arch (restart cfg s).disk = arch s.disk ∧
     fileOf cfg (restart cfg s).disk = (if cfg.appendMode then fileOf cfg s.disk else []) := by
   obtain ⟨ho, hse⟩ := restart_spec cfg s hwf
   exact ⟨hc.frame _ _ hse, fileOf_opened ho⟩
 
-/-- Main theorem. After any history (appends of any records with any roller fault, appends whose
-encoder fails, restarts, clock ticks; any trigger; any roller satisfying the contract; append mode
-or truncate mode), the files
-on disk — retained archives oldest to newest, then the active
-file — are exactly a suffix, by whole files, of the segmented stream: nothing missing from the
-middle, nothing duplicated, nothing reordered, no record split across files. -/
+/-- Main theorem. After any history, the files on disk — retained archives oldest to newest, then
+the active file — are exactly the segmented stream minus its `k` oldest WHOLE files, and `k` is at
+most the number of times the roller was called in that history: nothing missing from the middle,
+nothing duplicated, nothing reordered, no record split across files, and whole oldest files are
+discarded only by rotations, at most one per rotation request (without a rotation request nothing
+is ever discarded: `k = 0`). -/
 theorem C05_no_loss_no_dup_order (cfg : Cfg σ) (arch : Disk → List Bytes)
-    (hc : RollContract cfg.roll cfg.path arch)
+    (hc : RollContractE cfg.roll cfg.path arch)
     (d : Disk) (t0 : σ) (now : Nat) (ops : List XOp) :
     let res := grunX cfg (init cfg d t0 now) (Ghost.init cfg arch d) ops
-    ∃ k, k ≤ res.2.2.closed.length ∧
+    ∃ k, k ≤ rollCalls res.1 ∧ k ≤ res.2.2.closed.length ∧
       retained cfg arch res.2.1.disk = ((res.2.2.closed ++ [res.2.2.cur]).drop k).map List.flatten := by
   intro res
   have inv : Inv cfg arch res.2.1 res.2.2 := (C05_inv_init cfg arch hc d t0 now).historyX hc ops
-  obtain ⟨k, hk⟩ := inv.archives
-  refine ⟨min k res.2.2.closed.length, Nat.min_le_right _ _, ?_⟩
+  obtain ⟨k, hkc, hk⟩ := inv.archives
+  have hcalls : res.2.2.calls = rollCalls res.1 := by
+    have := grunX_calls cfg ops (init cfg d t0 now) (Ghost.init cfg arch d)
+    simpa [Ghost.init, res] using this
+  refine ⟨min k res.2.2.closed.length, ?_, Nat.min_le_right _ _, ?_⟩
+  · rw [← hcalls]; exact Nat.le_trans (Nat.min_le_left _ _) hkc
   have hdrop : res.2.2.closed.drop k = res.2.2.closed.drop (min k res.2.2.closed.length) := by
     by_cases h : k ≤ res.2.2.closed.length
     · rw [Nat.min_eq_left h]
@@ -68,26 +83,48 @@ theorem C05_no_loss_no_dup_order (cfg : Cfg σ) (arch : Disk → List Bytes)
   rw [hk, inv.active, hdrop, List.drop_append_of_le_length (Nat.min_le_right _ _)]
   simp
 
-/-- … and that segmented stream is the stream of written items: the pre-existing contents followed
-by exactly the records whose bytes reached the file, in call order, each once. The acknowledged
-records (append returned `Ok`) are a subsequence of it; the extras are whole records of appends that
-returned `Err` after their write (post-process policy failure). An append whose encoder failed
-contributes nothing at all (`writtenItemsX`). The outputs are those of the plain run (`traceX`). -/
-theorem C05_stream_is_written (cfg : Cfg σ) (arch : Disk → List Bytes) (d : Disk) (t0 : σ) (now : Nat) (ops : List XOp)
-    (hnr : cfg.appendMode = true ∨ ∀ op ∈ ops, op.isRestart = false) :
+/-- corollary: a history in which the roller is never called loses nothing at all -/
+theorem C05_no_rotation_no_loss (cfg : Cfg σ) (arch : Disk → List Bytes)
+    (hc : RollContractE cfg.roll cfg.path arch)
+    (d : Disk) (t0 : σ) (now : Nat) (ops : List XOp)
+    (h0 : rollCalls (grunX cfg (init cfg d t0 now) (Ghost.init cfg arch d) ops).1 = 0) :
     let res := grunX cfg (init cfg d t0 now) (Ghost.init cfg arch d) ops
-    res.2.2.stream = (Ghost.init cfg arch d).stream ++ writtenItemsX cfg.trig.pre ops res.1 ∧
+    retained cfg arch res.2.1.disk = (res.2.2.closed ++ [res.2.2.cur]).map List.flatten := by
+  intro res
+  obtain ⟨k, hk, _, h⟩ := C05_no_loss_no_dup_order cfg arch hc d t0 now ops
+  have : k = 0 := by
+    have : k ≤ 0 := h0 ▸ hk
+    omega
+  subst this
+  simpa using h
+
+/-- The segmented stream is the stream of written items. (1) Always — restarts in either mode
+included — it is a subsequence of the pre-existing contents followed by the records whose bytes
+reached the file, in call order: nothing invented, duplicated or reordered. (2) It is ALL of them
+as long as no restart happens in truncate mode. (3) The acknowledged records (append returned
+`Ok`) are a subsequence of the written ones; the extras are whole records of appends that returned
+`Err` after their write (post-process policy failure). An append whose encoder failed contributes
+nothing. (4) The outputs are those of the plain run (`traceX`). -/
+theorem C05_stream_is_written (cfg : Cfg σ) (arch : Disk → List Bytes) (d : Disk) (t0 : σ) (now : Nat) (ops : List XOp) :
+    let res := grunX cfg (init cfg d t0 now) (Ghost.init cfg arch d) ops
+    res.2.2.stream.Sublist ((Ghost.init cfg arch d).stream ++ writtenItemsX cfg.trig.pre ops res.1) ∧
+    ((cfg.appendMode = true ∨ ∀ op ∈ ops, op.isRestart = false) →
+      res.2.2.stream = (Ghost.init cfg arch d).stream ++ writtenItemsX cfg.trig.pre ops res.1) ∧
     (ackedItemsX ops res.1).Sublist (writtenItemsX cfg.trig.pre ops res.1) ∧
     res.1 = (traceX cfg (init cfg d t0 now) ops).map (·.1) := by
   intro res
-  exact ⟨grunX_stream cfg ops _ _ hnr, ackedX_sublist_writtenX _ _ _, (grunX_outs_state cfg _ _ ops).2⟩
+  exact ⟨grunX_stream_sublist cfg ops _ _, fun hnr => grunX_stream cfg ops _ _ hnr,
+    ackedX_sublist_writtenX _ _ _, grunX_outs cfg _ _ ops⟩
 
-/-- `C05_inv_step` for an append whose encoder fails: the invariant is preserved (nothing is
-written; in pre-process mode the rotation the policy may have performed is accounted for) -/
-theorem C05_inv_step_failing_encoder (cfg : Cfg σ) (arch : Disk → List Bytes) (hc : RollContract cfg.roll cfg.path arch)
-    (s : St σ) (g : Ghost) (inv : Inv cfg arch s g) (op : XOp) :
-    Inv cfg arch (applyX cfg s op).2 (ghostStepX cfg g op (applyX cfg s op).1) :=
-  inv.stepX hc op
+/-- … and what a truncate-mode restart discards is exactly the active segment: after
+`ops1 ++ [restart] ++ ops2` (no restart in `ops2`) the stream is what had been ARCHIVED during
+`ops1`, followed by everything written during `ops2` -/
+theorem C05_stream_after_truncate_restart (cfg : Cfg σ) (arch : Disk → List Bytes) (d : Disk) (t0 : σ) (now : Nat)
+    (ops1 ops2 : List XOp) (ham : cfg.appendMode = false) (hnr : ∀ op ∈ ops2, op.isRestart = false) :
+    let mid := grunX cfg (init cfg d t0 now) (Ghost.init cfg arch d) ops1
+    let fin := grunX cfg (init cfg d t0 now) (Ghost.init cfg arch d) (ops1 ++ .op .restart :: ops2)
+    fin.2.2.stream = mid.2.2.closed.flatten ++ writtenItemsX cfg.trig.pre ops2 (fin.1.drop (ops1.length + 1)) :=
+  grunX_stream_after_restart cfg ops1 ops2 _ _ ham hnr
 
 /-- the pre-existing part of the stream: the archives found on disk (oldest first) and, in append
 mode, the content of the log file -/
@@ -99,33 +136,51 @@ theorem C05_initial_stream (cfg : Cfg σ) (arch : Disk → List Bytes) (d : Disk
     | nil => rfl
     | cons a t ih => simp [ih]
 
-/-- In pre-process mode a record is written iff its append returned `Ok`: written = acknowledged. -/
-theorem C05_pre_wrote_iff_ok (cfg : Cfg σ) (s : St σ) (r : Rec) (fault : Nat → Bool) (hwf : WF cfg s)
-    (hpre : cfg.trig.pre = true) :
-    wrote true (append cfg s r fault).1 = true ↔ (append cfg s r fault).1.res = .ok := by
-  obtain ⟨_, _, _, _, hno, herr, hyes⟩ := append_pre_spec cfg s r fault hwf hpre _ _
-    (append cfg s r fault).1 (append cfg s r fault).2 rfl rfl rfl
-  cases hans : (cfg.trig.fire s.tst (openView cfg s).length s.now).1 with
-  | no => obtain ⟨hr, hro, _⟩ := hno hans; simp [wrote, hr, hro]
-  | err => obtain ⟨hr, hro, _⟩ := herr hans; simp [wrote, hr, hro]
-  | yes =>
-    obtain ⟨d1, _, _, h⟩ := hyes hans
-    rcases h with ⟨_, _, hr, hro, _⟩ | ⟨_, _, hr, hro, _⟩ <;> simp [wrote, hr, hro]
+/-! ### rollers that satisfy the contract -/
 
-/-- the delete roller satisfies the contract (it retains nothing) -/
-theorem C05_contract_delete (path : Path) : RollContract (fun p f d => deleteRoll p f d) path (fun _ => []) :=
-  rollContract_delete path
+/-- the delete roller (it retains nothing), at every fault -/
+theorem C05_contract_delete (path : Path) : RollContractE (fun p f d => deleteRoll p f d) path (fun _ => []) :=
+  (rollContractB_delete path).toE
 
-/-- the fixed-window model satisfies the contract, for every base and count, every initial window
-(gaps, pre-existing archives), plain or compressed, and wherever a fault stops the rotation —
-provided slot names are pairwise distinct inside the window and differ from the log file (C07's
-`name_injective`), and the codec round-trips -/
+/-- the fixed-window model (shared `fixedWindowRoll`: compression as one atomic step), for every
+base and count, every initial window (gaps, pre-existing archives), plain or compressed, wherever a
+fault stops the rotation — provided slot names are pairwise distinct inside the window and differ
+from the log file, and the codec round-trips -/
 theorem C05_contract_fixed_window (r : RollerCfg) (path : Path) (decode : Bytes → Bytes)
     (hdec : ∀ x, decode (r.codec x) = x)
     (hinj : ∀ i j, i < r.count → j < r.count → r.nameOf (r.base + i) = r.nameOf (r.base + j) → i = j)
     (hfile : ∀ j, j < r.count → r.nameOf (r.base + j) ≠ path) :
-    RollContract (fixedWindowRoll r) path (fwArch r decode) :=
-  rollContract_fixedWindow r path decode hdec hinj hfile
+    RollContractE (fixedWindowRoll r) path (fwArch r decode) :=
+  (rollContractB_fixedWindow r path decode hdec hinj hfile).toE
+
+/-- the same for the real naming `pattern.replace("{}", i)`: a pattern containing `{}` names the
+slots injectively (C07 `substIdx_decimal_inj`), so only "no slot of the window is the log file
+itself" remains as a hypothesis (a configuration error the builder does not reject). Environment
+references in the pattern are taken as already expanded (`expand = id`). -/
+theorem C05_contract_fixed_window_pattern (p : List Char) (hp : hasHole p = true) (codec decode : Bytes → Bytes)
+    (base count : Nat) (path : Path) (hdec : ∀ x, decode (codec x) = x)
+    (hfile : ∀ j, j < count → name id p (base + j) ≠ path) :
+    RollContractE (fixedWindowRoll (mkRoller id codec p base count)) path (fwArch (mkRoller id codec p base count) decode) := by
+  apply C05_contract_fixed_window (mkRoller id codec p base count) path decode hdec
+  · intro i j _ _ h
+    have := substIdx_decimal_inj p hp (base + i) (base + j) (by simpa [mkRoller, name] using h)
+    omega
+  · exact hfile
+
+/-- a roller that does all its work and then reports `Err` (what the harness's wrapper does for
+`g!record`; `Roll::roll` promises nothing on `Err`) still satisfies the contract -/
+theorem C05_contract_late_error (inner : RollFn) (path : Path) (arch : Disk → List Bytes)
+    (h : RollContractE inner path arch) (late : Nat) : RollContractE (lateRoll inner late) path arch :=
+  h.late late
+
+/-- the 3-sub-step model of the compressing rotation satisfies the contract as long as its
+`remove_file(src)` sub-step is not made to fail (`noRemoveFault`), whatever the code does there -/
+theorem C05_contract_fixed_window_compress_partial (lc : Bool) (r : RollerCfg) (path : Path) (decode : Bytes → Bytes)
+    (hdec : ∀ x, decode (r.codec x) = x)
+    (hinj : ∀ i j, i < r.count → j < r.count → r.nameOf (r.base + i) = r.nameOf (r.base + j) → i = j)
+    (hfile : ∀ j, j < r.count → r.nameOf (r.base + j) ≠ path) :
+    RollContractE (noRemoveFault r (fixedWindowRollC lc r)) path (fwArch r decode) :=
+  (rollContractB_fixedWindowC_partial lc r path decode hdec hinj hfile).toE
 
 /-- the reading used for the fixed-window roller is the executable `Spec.readBack` the driver
 evaluates on real directories (plain files; for compressed patterns the harness decompresses) -/
@@ -136,77 +191,133 @@ theorem C05_readBack_is_spec (cfg : Cfg σ) (r : RollerCfg) (d : Disk) :
     cases r.comp <;> simp
   simp [retained, Spec.readBack, Spec.diskFiles, this, fileOf]
 
-/-- Concurrent writers: every state the lock machine can reach is the sequential execution of the
-committed appends in commit order, the commit order being a merge of the threads' completed
-appends — so all sequential theorems above apply to it. -/
-theorem C05_schedule_serial_rolling (cfg : Cfg σ) (s0 : St σ) (progs : List (List Rec)) (sched : List Nat) :
-    let body : Rec → (List (Option Out) × St σ) → (List (Option Out) × St σ) :=
-      fun r acc => (acc.1 ++ [some (append cfg acc.2 r (fun _ => false)).1], (append cfg acc.2 r (fun _ => false)).2)
-    let st := lrun body (LState.init ([], s0) progs) sched
-    st.shared = run cfg s0 ((st.log.map (·.2)).map (fun r => Op.append r none)) ∧
-    (∀ i t, st.threads[i]? = some t → (st.log.filter (fun e => e.1 == i)).map (·.2) = t.done ∧
-        ∃ p, progs[i]? = some p ∧ t.done <+: p) := by
-  intro body st
-  have inv : LInv body ([], s0) progs st := (LInv.init body _ progs).run sched
-  have hseq : ∀ (rs : List Rec) (acc : List (Option Out) × St σ),
-      rs.foldl (fun acc r => body r acc) acc =
-        (acc.1 ++ (run cfg acc.2 (rs.map (fun r => Op.append r none))).1,
-         (run cfg acc.2 (rs.map (fun r => Op.append r none))).2) := by
-    intro rs
-    induction rs with
-    | nil => intro acc; simp [run]
-    | cons r rs ih =>
-      intro acc
-      simp only [List.foldl_cons, List.map_cons, run, applyOp]
-      rw [ih]
-      have hf : faultFn none = fun _ => false := by funext k; simp [faultFn]
-      simp [body, hf]
-  refine ⟨?_, ?_⟩
-  · rw [inv.shared, hseq]
+/-! ### the compressing final step as the code has it (finding `C05/compress-failure-duplicates`) -/
+
+private def cPath : Path := ['a']
+private def cRoller : RollerCfg :=
+  { nameOf := fun i => 'b' :: List.replicate i 'x', base := 0, count := 2, comp := .gzip, codec := id }
+private def cCfg (lc : Bool) : Cfg (List TrigAns) :=
+  { path := cPath, appendMode := true, trig := scriptedTrigger false, roll := fixedWindowRollC lc cRoller }
+
+/-- The full statement for the compressing roller as the code is (`leavesCopy = true`) … -/
+def C05_no_dup_compress_statement : Prop :=
+  RollContractE (fixedWindowRollC true cRoller) cPath (fwArch cRoller id)
+
+/-- … is false: when `remove_file(src)` fails after the archive was written (fault index `count`),
+the roller returns `Err` with the segment BOTH in slot `base` and in the log file. -/
+theorem C05_no_dup_compress_statement_false : ¬ C05_no_dup_compress_statement := by
+  intro h
+  have hr : fixedWindowRollC true cRoller cPath (fun k => k == 2) (Disk.empty.set cPath [1]) =
+      (.error (.injected 2), ((Disk.empty.set cPath [1]).erase cPath |>.set ['b'] [1] |>.erase cPath).set cPath [1]) := by
+    rfl
+  rcases h.err _ _ _ _ [1] hr (by decide) with ⟨_, j, _, harch⟩ | ⟨hgone, _⟩
+  · revert harch
+    have : fwArch cRoller id (((Disk.empty.set cPath [1]).erase cPath |>.set ['b'] [1] |>.erase cPath).set cPath [1]) = [[1]] := by decide
+    rw [this]
+    have : fwArch cRoller id (Disk.empty.set cPath [1]) = [] := by decide
+    rw [this]
     simp
+  · revert hgone; decide
+
+/-- the consequence for the appender (test on a sample): `[1]` is acknowledged, the rotation
+requested after `[2]` archives `[1,2]` and then fails to remove the log file; the appender goes on
+appending, the next rotation archives `[1,2,3]`: reading back gives `1 2 1 2 3` — the acknowledged
+record `[1]` is stored twice. With the intended repair (`leavesCopy = false`) it is `1 2 3`. -/
+theorem C05_compress_failure_duplicates :
+    let ops : List Op := [.append [[1]] none, .append [[2]] (some 2), .append [[3]] none]
+    let old := run (cCfg true) (init (cCfg true) Disk.empty [.no, .yes, .yes] 0) ops
+    let new := run (cCfg false) (init (cCfg false) Disk.empty [.no, .yes, .yes] 0) ops
+    old.1.map (fun o => o.map (·.res)) = [some .ok, some .errRoll, some .ok] ∧
+    Spec.readBack cRoller.nameOf 0 2 cPath old.2.disk.get? = [1, 2, 1, 2, 3] ∧
+    Spec.readBack cRoller.nameOf 0 2 cPath new.2.disk.get? = [1, 2, 3] := by
+  decide +kernel
+
+/-- for the integrator's repair (remove the destination when `compress` fails; model flag
+`leavesCopy = false`, not yet the code): the compressing rotation then satisfies the contract at
+EVERY fault, the `remove_file(src)` sub-step included — after the repair this replaces
+`C05_contract_fixed_window_compress_partial` and the main theorem covers compressed rollers without
+restriction. (Named `Repair_…`: not a statement about the current code, not counted.) -/
+theorem Repair_C05_contract_fixed_window_compress (r : RollerCfg) (path : Path) (decode : Bytes → Bytes)
+    (hdec : ∀ x, decode (r.codec x) = x)
+    (hinj : ∀ i j, i < r.count → j < r.count → r.nameOf (r.base + i) = r.nameOf (r.base + j) → i = j)
+    (hfile : ∀ j, j < r.count → r.nameOf (r.base + j) ≠ path) :
+    RollContractE (fixedWindowRollC false r) path (fwArch r decode) :=
+  (rollContractB_fixedWindowC_fixed r path decode hdec hinj hfile).toE
+
+/-! ### concurrent writers -/
+
+/-- Every state the small-step lock machine can reach from a freshly built appender, under any
+scheduler: (1) the commit order is a merge of the threads' programs (restricted to a thread it is
+what that thread has completed, a prefix of its program); (2) if the lock is free, the appender's
+state and outputs are those of the SEQUENTIAL history of the committed appends in commit order —
+and therefore the main theorem holds for it: the files on disk are the segmented stream of that
+history minus at most one whole oldest file per rotation request. (While the lock is held the
+same is true of the state reached by letting the holder finish: `MInv.lock`.) -/
+theorem C05_concurrent_no_loss (cfg : Cfg σ) (arch : Disk → List Bytes) (hc : RollContractE cfg.roll cfg.path arch)
+    (d : Disk) (t0 : σ) (now : Nat) (progs : List (List Rec)) (sched : List Nat) :
+    let st := mrun (appendMicro cfg) (MState.init { st := init cfg d t0 now, outs := [] } progs) sched
+    let ops := (st.log.map (·.2)).map (fun r => XOp.op (.append r none))
+    (∀ i t, st.threads[i]? = some t → (st.log.filter (fun e => e.1 == i)).map (·.2) = t.done ∧
+        ∃ p, progs[i]? = some p ∧ t.done <+: p) ∧
+    (st.holder = none →
+      let res := grunX cfg (init cfg d t0 now) (Ghost.init cfg arch d) ops
+      st.shared.st = res.2.1 ∧ st.shared.outs = res.1 ∧
+      ∃ k, k ≤ rollCalls res.1 ∧ k ≤ res.2.2.closed.length ∧
+        retained cfg arch st.shared.st.disk = ((res.2.2.closed ++ [res.2.2.cur]).drop k).map List.flatten) := by
+  intro st ops
+  have inv : MInv (appendMicro cfg) { st := init cfg d t0 now, outs := [] } progs st :=
+    (MInv.init (appendMicro cfg) _ progs).run sched
+  refine ⟨?_, ?_⟩
   · intro i t ht
     obtain ⟨hl, p, hp1, hp2⟩ := inv.threads i t ht
     exact ⟨hl, p, hp1, ⟨t.todo, hp2⟩⟩
+  · intro hfree res
+    have lk := inv.lock
+    simp only [hfree] at lk
+    -- the serial execution of the micro-steps is the run of the appends
+    have hser : ∀ (rs : List Rec) (s : St σ) (o : List (Option Out)) (g : Ghost),
+        rs.foldl (fun sh r => runJob (appendMicro cfg) r sh) ({ st := s, outs := o } : Mid σ) =
+          { st := (grunX cfg s g (rs.map (fun r => XOp.op (.append r none)))).2.1,
+            outs := o ++ (grunX cfg s g (rs.map (fun r => XOp.op (.append r none)))).1 } := by
+      intro rs
+      induction rs with
+      | nil => intro s o g; simp [grunX]
+      | cons r rs ih =>
+        intro s o g
+        simp only [List.foldl_cons, List.map_cons, grunX]
+        rw [appendMicro_eq, ih _ _ (ghostStepX cfg g (.op (.append r none)) (applyX cfg s (.op (.append r none))).1
+          (goneAfter cfg (applyX cfg s (.op (.append r none))).2))]
+        have hf : faultFn none = fun _ => false := by funext k; simp [faultFn]
+        simp [applyX, applyOp, hf]
+    have hsh : st.shared = { st := res.2.1, outs := res.1 } := by
+      rw [lk.2, serialOf, hser _ _ _ (Ghost.init cfg arch d)]
+      simp [res, ops]
+    have h1 : st.shared.st = res.2.1 := by rw [hsh]
+    refine ⟨h1, by rw [hsh], ?_⟩
+    rw [h1]
+    exact C05_no_loss_no_dup_order cfg arch hc d t0 now ops
 
-/-! ### truncate mode after a failed roll (the former defect F10)
-
-Before the `fix:` commit b8295bc the next append after a failed roll reopened the still existing
-file with `truncate(true)` and destroyed acknowledged records; the model mirrored that and the
-theorems above needed the hypothesis "append mode, or the roller never fails". The code now
-truncates at the appender's first open only, the model follows (`St.opened`), the hypothesis is
-gone, and the former counter-example is a regression witness. -/
+/-! ### samples and history (not counted as property theorems) -/
 
 private def wPath : Path := ['a']
 private def wRoller : RollerCfg := { nameOf := fun i => 'b' :: List.replicate i 'x', base := 0, count := 1 }
 private def wCfg : Cfg (List TrigAns) :=
   { path := wPath, appendMode := false, trig := scriptedTrigger false, roll := fixedWindowRoll wRoller }
 
-/-- witness (test on a sample): `[1]` is acknowledged, the roll requested after `[2]` fails at its
-only step, the next append reopens the file — and everything is still there -/
-theorem C05_truncate_reopen_after_failed_roll_keeps :
+/-- test on a sample (regression for the former defect F10, fixed by b8295bc): truncate mode, `[1]`
+acknowledged, the roll requested after `[2]` fails, the next append reopens the file — and
+everything is still there -/
+theorem Sample_C05_truncate_reopen_after_failed_roll_keeps :
     let res := run wCfg (init wCfg (Disk.empty.set wPath [9]) [.no, .yes, .no] 0)
       [.append [[1]] none, .append [[2]] (some 0), .append [[3]] none]
     res.1.map (fun o => o.map (·.res)) = [some .ok, some .errRoll, some .ok] ∧
     res.2.disk.get? wPath = some [1, 2, 3] ∧ res.2.disk.get? (wRoller.nameOf 0) = none := by
   decide +kernel
 
-/-! ### failing encoders (the former finding `C05/encoder-error-torn`, repaired by 9f38f0b)
-
-Histories are lists of `XOp`: ordinary operations and appends whose encoder fails. The code now
-encodes into memory before writing, so a failing encoder writes nothing; the main theorems above
-cover such histories. On the `Op` fragment the extended semantics is the plain one. The historical
-behaviour (slices written before the error stayed in the `LogWriter`) is `appendFailUnfixed`. -/
-
-theorem C05_traceX_of_ops (cfg : Cfg σ) (s : St σ) (ops : List Op) :
-    traceX cfg s (ops.map XOp.op) = trace cfg s ops := by
-  induction ops generalizing s with
-  | nil => rfl
-  | cons op ops ih => simp [traceX, trace, applyX, ih]
-
-/-- witness (test on a sample) of the historical semantics: the encoder of `[1][2]` fails after its
-first slice; the append returns `Err`, and after the next, successful append of `[3]` the active
-file was `[1, 3]` — the torn `[1]` glued in front of `[3]`; with the repaired code it is `[3]` -/
-theorem C05_encoder_error_tears_record_unfixed :
+/-- history (code before 9f38f0b, `appendFailUnfixed`): an encoder failing after its first slice
+left that slice in the LogWriter and the next record carried it into the file; the current code
+(`appendFail`) writes nothing -/
+theorem Hist_C05_encoder_error_tears_record :
     let cfg : Cfg Unit := { path := ['a'], appendMode := true, trig := sizeTrigger 100,
                             roll := fun p f d => deleteRoll p f d }
     let s0 := init cfg Disk.empty () 0
@@ -216,10 +327,8 @@ theorem C05_encoder_error_tears_record_unfixed :
     new.1.res = .errEncode ∧ (append cfg new.2 [[3]] (fun _ => false)).2.disk.get? ['a'] = some [3] := by
   decide +kernel
 
-/-! ### non-vacuity (tests on samples) -/
-
-/-- fixed window base 0 count 2, size limit 2: three rotations, the oldest file is evicted, the
-read-back is the last records in order -/
+/-- test on a sample: fixed window base 0 count 2, size limit 2: three rotations, the oldest file
+is evicted, the read-back is the last records in order -/
 example :
     let rc : RollerCfg := { nameOf := fun i => 'b' :: List.replicate i 'x', base := 0, count := 2 }
     let cfg : Cfg Unit := { path := ['a'], appendMode := true, trig := sizeTrigger 2, roll := fixedWindowRoll rc }
